@@ -117,6 +117,9 @@ def xy_cases(draw, tier="quick"):
     clip = reward_clipping, risk_aversion): near fully invested accounts so that the clip is active on large moves."""
     c = draw(xylab.cases(tier))
     c["fold2"] = None
+    # float64 price tables only: with a float32 table the library estimates the reward scale in float32 (its choice of
+    # precision for a constant it chooses itself); the reference below recomputes the scale in float64
+    c.pop("y_dtype", None)
     c["reward_clipping"] = draw(st.sampled_from([2.0, 2.0, 0.5, 1.0, 3.0]))
     c["risk_aversion"] = draw(st.sampled_from([0.0, 0.0, 0.1, 0.5]))
     sign = draw(st.sampled_from([1.0, 1.0, -1.0]))
